@@ -28,13 +28,13 @@ ProposedAccepted(pre, e) ==
 
 \* C01: replicas that are in sync and are offered the same honestly built block never disagree about its state
 \* transition: it is a violation when one of them refuses the block for a roots / hash mismatch while another accepts
-\* it, and when ALL of them refuse it although re-proposing on the same head gives varying results (the proposer's own
-\* evaluations disagree: node-local nondeterminism).  When every replica, the proposer included, deterministically
+\* it, and when ALL of them refuse it (for whatever reason) although proposing on the same head gives varying results - the
+\* refused proposal included - (the proposer's own evaluations disagree: node-local nondeterminism).  When every replica, the proposer included, deterministically
 \* refuses the proposal, the replicas agree with each other - that is C02's business (ProposedAccepted), not C01's.
 SameTransition(pre, e) ==
     LET ins == {r \in Names(e.verdicts) : InSync(pre, r)} IN
     /\ ~(\E a, b \in ins : e.verdicts[a] = "roots-mismatch" /\ e.verdicts[b] = "ok")
-    /\ ~((\A r \in ins : e.verdicts[r] = "roots-mismatch") /\ ins # {} /\ "diag" \in DOMAIN e /\ e.diag # <<>> /\ e.diag.nondet)
+    /\ ~((\A r \in ins : e.verdicts[r] # "ok") /\ ins # {} /\ "diag" \in DOMAIN e /\ e.diag # <<>> /\ e.diag.nondet)
 
 \* C01: all replicas that hold the same chain observe the same result (byte-identical head hash, roots,
 \* flags, epoch, period, next validation time, fee rate, VRF threshold, shards, discrimination threshold,
